@@ -51,6 +51,10 @@ def items(tier, seed):
         out.append(dict(name="bfs-MT-LAP-cap2-t2-V2", kind="bfs", cls="LAP", cap=2, b=1, tasks=2, H=0, seed=seed, V=[0.5, 2.0], coarse=True))
     for n in ([1, 2, 3] if q else [1, 2, 3, 4]):
         out.append(dict(name=f"law-n{n}", kind="law", n=n, seed=seed))
+    for n in ([1, 2, 3] if q else [1, 2, 3, 4]):
+        out.append(dict(name=f"weights-n{n}", kind="weights", n=n, seed=seed))
+    for n in range(5, 17 if q else 33):
+        out.append(dict(name=f"law-long-n{n}", kind="law", n=n, long=True, seed=seed))
     out.append(dict(name="priority-functions", kind="prio", seed=seed))
     # the |TD error| the critic updates report (and the training loops turn into priorities)
     for fam in ("td7", "td3_lap", "ddqn_per", "mrq"):
@@ -416,7 +420,13 @@ def law_item(item, col):
 
     n = item["n"]
     alph = [1.0, 0.0, 2.0**-30, 2.0**-29, 2.0**30, 2.0**29, 2.0**-20, 2.0**20, 3.0]
-    for vec in itertools.product(alph, repeat=n):
+    vectors = itertools.product(alph, repeat=n)
+    if item.get("long"):
+        # longer vectors of small integers (cumulative sums stay exact): freshly filled buffers (all priorities equal) and a
+        # few patterns; totals that are no power of two, so a normalised representation would round
+        vectors = [tuple([1.0] * n), tuple([3.0] * n), tuple([1.0, 3.0] * (n // 2) + [1.0] * (n % 2)), tuple([2.0] * (n - 1) + [5.0]),
+                   tuple([1.0] * (n - 1) + [0.0]), tuple([0.0] + [1.0] * (n - 1))]
+    for vec in vectors:
         mags = [v for v in vec if v > 0]
         if not mags:
             continue
@@ -462,6 +472,47 @@ def law_item(item, col):
                             if int(idx[j]) != exp:
                                 col.violation(SIG.format("PrioritizedReplayBuffer.prioritized_sampling_stratified", "index-not-in-the-variate's-priority-interval"), dict(priorities=list(vec), b=b, frac=frac, index=int(idx[j]), expected=exp))
     col.sample(dict(kind="law", n=n, alphabet=alph))
+
+
+def weights_item(item, col):
+    """Importance weights of PER over wide-range priority vectors: (0, 1], maximum 1, non-increasing in priority and equal to
+    (p_i / p_min)^-beta of the batch (float64 reference; the priorities are stored in float64)."""
+    from rl_blox.blox import replay_buffer as rb
+
+    n = item["n"]
+    alph = [2.0**-100, 2.0**-20, 1.0, 3.0, 2.0**20, 2.0**100]
+    E = "PrioritizedReplayBuffer.compute_importance_ratio"
+    for vec in itertools.product(alph, repeat=n):
+        per = rb.PrioritizedReplayBuffer(n)
+        for i in range(n):
+            per.add_sample(observation=np.array([float(i)]), action=0, reward=0.0, next_observation=np.array([0.0]), termination=False)
+        per.priority.priority[:n] = vec
+        batches = [list(range(n)), list(range(n))[::-1]] + [[i] for i in range(n)] + ([[0, 0, n - 1]] if n > 1 else [])
+        for beta, idx in itertools.product((0.0, 0.4, 1.0), batches):
+            p = np.asarray([vec[i] for i in idx], dtype=np.float64)
+            nontriv = beta > 0 and len(set(p.tolist())) > 1
+            col.tick(1, ("weights", vec, beta, tuple(idx)) if nontriv else None)
+            try:
+                w = np.asarray(per.compute_importance_ratio(np.asarray(idx), beta), dtype=np.float64).reshape(-1)
+            except Exception as e:  # noqa: BLE001
+                col.violation(SIG.format(E, "raised"), dict(priorities=list(vec), indices=idx, beta=beta, error=repr(e)[:200]))
+                continue
+            ref = (p / p.min()) ** (-beta)
+            ref = ref / ref.max()
+            d = dict(priorities=list(vec), indices=idx, beta=beta, weights=w.tolist(), expected=ref.tolist())
+            if w.shape != ref.shape or not np.all(np.isfinite(w)) or not (np.all(w > 0) and np.all(w <= 1.0)):
+                col.violation(SIG.format(E, "weights-outside-(0,1]"), d)
+            elif float(w.max()) != 1.0:
+                col.violation(SIG.format(E, "max-weight!=1"), d)
+            elif any(p[a] > p[c] and w[a] > w[c] * (1 + 1e-12) for a in range(len(p)) for c in range(len(p))):
+                col.violation(SIG.format(E, "weight-increasing-in-priority"), d)
+            elif not np.allclose(w, ref, rtol=1e-5, atol=0):
+                col.violation(SIG.format(E, "weight!=(N*P(i))^-beta/max"), d)
+            if nontriv:
+                col.outcome("weight_vectors_with_distinct_priorities")
+                if p.max() / p.min() > 2.0**130:
+                    col.outcome("weight_vectors_spanning_more_than_the_float32_range")
+    col.sample(dict(kind="weights", n=n, alphabet=alph))
 
 
 def prio_item(item, col):
@@ -524,6 +575,8 @@ def work(item, col):
         return tderr_item(item, col)
     if item["kind"] == "law":
         return law_item(item, col)
+    if item["kind"] == "weights":
+        return weights_item(item, col)
     if item["kind"] == "prio":
         return prio_item(item, col)
     cfg = item
